@@ -139,6 +139,8 @@ impl RK4 {
 
         // --- Main integration loop ---
         loop {
+            #[cfg(feature = "verif")]
+            crate::verif::tick(crate::verif::RK4_MAIN);
             // Check for maximum number of steps
             if steps.total >= nmax {
                 status = Status::NeedLargerNMax;
